@@ -24,6 +24,27 @@ def handle (ws : List String) : String :=
     | .created i => s!"created {i}"
     | .replaced o k n => s!"replaced {o} {if k then 1 else 0} {n}"
     | .reused i o n => s!"reused {i} {o} {n}"
+  | ["callk", prev, nextId, cpu, mw, reuse, kill, kw] =>
+    -- as `call`, with explicit identities of the keyword arguments: the previous instance's (5th field of <prev>) and
+    -- this call's; the answer adds the identity the returned instance was built from / is remembered with
+    let args : Args := { maxWorkers := if mw == "none" then none else mw.toNat?,
+                         kwargs := kw.toNat?.getD 0,
+                         reuse := if reuse == "yes" then .yes else if reuse == "no" then .no else .auto,
+                         killWorkers := kill == "1" }
+    let exec : Option Exec :=
+      match prev.splitOn ":" with
+      | [i, m, b, sd, k] =>
+        some { id := i.toNat?.getD 0, maxWorkers := m.toNat?.getD 0, kwargs := k.toNat?.getD 0,
+               broken := b == "1", shutdown := sd == "1" }
+      | _ => none
+    let s : St := { exec := exec, nextId := nextId.toNat?.getD 0, cpuCount := cpu.toNat?.getD 1 }
+    let (r, s') := getReusable s args
+    let k' := match s'.exec with | some e => toString e.kwargs | none => "none"
+    match r with
+    | .valueError => "ValueError"
+    | .created i => s!"created {i} kw={k'}"
+    | .replaced o k n => s!"replaced {o} {if k then 1 else 0} {n} kw={k'}"
+    | .reused i o n => s!"reused {i} {o} {n} kw={k'}"
   | ["resize", alive, new] =>
     match alive.toNat?, new.toNat? with
     | some a, some n =>
